@@ -643,3 +643,42 @@ Definition mon_verdict (c : mon_case) : verdict :=
   | Err _, _, Raised => BothReject
   | Err _, _, _ => ModelUndefined
   end.
+
+(* ---- C15: read-out helpers ---- *)
+From Lekkersim Require Import Readout.
+
+Record rd_case := {
+  rd_idx : list nat;                       (* pin k -> matrix index *)
+  rd_S : list lmx;                         (* one matrix per sweep point *)
+  rd_u : list (nat * QcCf);                (* excitation: pin k, amplitude *)
+  rd_pq : nat * nat;
+  rd_power : bool;
+  rd_same : bool;                          (* by name and by Pin object give identical results *)
+  rd_out0 : obs (list QcCf);               (* get_output at point 0, per pin *)
+  rd_full : obs (list (list QcCf));        (* get_full_output: one row per sweep point *)
+  rd_data : obs (list (QcCf * QcCf));      (* get_data: (T, Amplitude) per sweep point *)
+  rd_AT0 : obs (QcCf * QcCf)               (* get_A, get_T at point 0 *)
+}.
+
+Definition smodel_of (c : rd_case) (M : lmx) : smodel BQCf :=
+  let n := List.length (rd_idx c) in
+  {| sm_pins := map (fun k => (0, k)%nat) (seq 0 n);
+     sm_idx := fun p => nth (snd p) (rd_idx c) 0%nat; sm_n := n; sm_S := mxl M |}.
+
+Definition rd_verdict (c : rd_case) : verdict :=
+  let ms := map (smodel_of c) (rd_S c) in
+  let u := map (fun e => ((0, fst e)%nat, snd e)) (rd_u c) in
+  let conv := fun z : BQCf => if rd_power c then cabs2 z else z in
+  let p := (0, fst (rd_pq c))%nat in let q := (0, snd (rd_pq c))%nat in
+  match rd_out0 c, rd_full c, rd_data c, rd_AT0 c with
+  | Obs o0, Obs fo, Obs dt, Obs at0 =>
+      let m0 := nth 0 ms (smodel_of c []) in
+      let ok0 := all2 (fun pv x => cclose tol9 (conv (snd pv)) x) (get_output m0 u) o0 in
+      let okf := all2 (fun row orow => all2 (fun pv x => cclose tol9 (conv (snd pv)) x) row orow)
+                      (full_output ms u) fo in
+      let okd := all2 (fun ta o => cclose tol9 (fst ta) (fst o) && cclose tol9 (snd ta) (snd o))
+                      (data_table ms p q) dt in
+      let oka := cclose tol9 (get_A m0 p q) (fst at0) && cclose tol9 (get_T m0 p q) (snd at0) in
+      if rd_same c && ok0 && okf && okd && oka then Agree else Differ
+  | _, _, _, _ => ImplError
+  end.
